@@ -589,6 +589,10 @@ func c14RunGob(args []string) Result {
 		if e != nil || c14Unsafe(oldEnc) != "" || d3.GobDecode(oldEnc) != nil {
 			return "skip"
 		}
+		// the receiver has been encoded before it is decoded into: nothing remembered from that may survive
+		if re0, e := d3.GobEncode(); e != nil || !bytes.Equal(re0, oldEnc) {
+			return "skip"
+		}
 		if e := d3.GobDecode(enc); e != nil {
 			return "err"
 		}
